@@ -779,7 +779,7 @@ Qed.
 Lemma wf_view_sound v : wf_view v = true ->
   v_name v <> [] /\ NoDup (map fst (v_tags v)) /\ fields_within v /\ time_ok (v_time v) = true.
 Proof.
-  unfold wf_view. rewrite !andb_true_iff. intros [[[[[H1 H2] H2b] H3] H4] H5].
+  unfold wf_view. rewrite !andb_true_iff. intros [[[[[[H1 H2] H2b] H3] H4] H5] H6].
   split; [destruct (v_name v); [discriminate|discriminate]|].
   split.
   { clear -H3. induction (map fst (v_tags v)) as [|k r IH]; [constructor|].
